@@ -32,8 +32,13 @@ SPECIAL_ANGLES = special_angles()
 def angle(rng):
     """Any finite angle: special values, near-special, many turns, uniform, log-uniform."""
     r = rng.random()
-    if r < 0.35:
+    if r < 0.27:
         return float(SPECIAL_ANGLES[rng.integers(len(SPECIAL_ANGLES))])
+    if r < 0.35:
+        # a special value plus an offset drawn continuously (not a power of ten): thresholds that switch formula next to a
+        # singular configuration sit at values like sqrt(20 eps) = 6.7e-8, and a misplaced one is wrong only in a thin band
+        c = [0.0, PI / 2, -PI / 2, PI, -PI][rng.integers(5)]
+        return float(c + sign(rng) * (logu(rng, 1e-8, 1e-5) if rng.random() < 0.6 else logu(rng, 1e-12, 1e-1)))
     if r < 0.45:
         k = [1, 5, 100, 10000][rng.integers(4)]
         return sign(rng) * (2 * PI * k + rng.uniform(-PI, PI))
@@ -151,6 +156,16 @@ def rotation(rng):
     a = unit_axis(rng)
     th = rot_angle(rng)
     return a, th, ref.rot(a, th)
+
+
+def exact_so3(rng, dtype=None):
+    """one of the 24 signed permutation matrices of determinant +1 (exactly representable in every element type), optionally
+    held as float32 / float16 / an integer type: a valid member whatever the precision of its container"""
+    P = np.eye(3)[rng.permutation(3)] * rng.choice([-1.0, 1.0], size=3)
+    if np.linalg.det(P) < 0:
+        P[0] = -P[0]
+    P = P + 0.0          # (no negative zeros)
+    return P.astype(dtype) if dtype else P
 
 
 def so3(rng):
